@@ -30,6 +30,7 @@ verus! {
 //%include spec/optim.rs
 
 //%item optimiser.rs coalesce pub fn coalesce
+//%item optimiser.rs shake_0 fn shake_0
 
 } // verus!
 fn main() {}
